@@ -756,7 +756,67 @@ def check_inadmissible(case):
 RULE_NT = ("non-trivial = uneven chunk sizes, or a single-cell chunk, or >= 2 split axes, or a periodic axis "
            "that is split")
 
+# ---------------------------------------------------------------------------------------
+# a mesh built through the documented constructor GridMesh(basegrid, subgrids) with hand-chosen chunk sizes
+# (after missed seed C17-7: the slices were recomputed from the equal decomposition instead of being read
+# from the sub-grids): split then combine is the identity and every node sees the cells of ITS sub-grid
+# ---------------------------------------------------------------------------------------
+@st.composite
+def handmade_cases(draw):
+    sizes = draw(st.lists(st.integers(1, 6), min_size=2, max_size=4))
+    cls = draw(st.sampled_from(["cart", "sph", "polar"]))
+    lo = draw(st.sampled_from([0.0, 0.5, -2.0])) if cls == "cart" else draw(st.sampled_from([0.0, 0.5]))
+    return {"sizes": sizes, "cls": cls, "lo": lo, "dx": draw(st.sampled_from([1.0, 0.25, 0.3])),
+            "rank": draw(st.sampled_from([0, 0, 1])), "ghost": draw(st.booleans()), "seed": draw(st.integers(0, 2**31))}
+
+
+def check_handmade(case):
+    import pde
+
+    sizes = [int(k) for k in case["sizes"]]
+    n, lo, dx = sum(sizes), float(case["lo"]), float(case["dx"])
+    edges = [lo + dx * k for k in np.cumsum([0] + sizes)]
+    if case["cls"] == "cart":
+        base = pde.CartesianGrid([[edges[0], edges[-1]]], n)
+        subs = [pde.CartesianGrid([[a, b]], k) for a, b, k in zip(edges[:-1], edges[1:], sizes)]
+    else:
+        G = pde.SphericalSymGrid if case["cls"] == "sph" else pde.PolarSymGrid
+        base = G((edges[0], edges[-1]), n)
+        subs = [G((a, b), k) for a, b, k in zip(edges[:-1], edges[1:], sizes)]
+    mesh = GridMesh(base, subs)
+    rank = int(case["rank"])
+    cls = [pde.ScalarField, pde.VectorField][rank]
+    field = cls.random_normal(base, rng=np.random.default_rng(case["seed"]))
+    ghost = bool(case["ghost"])
+    full = field._data_full if ghost else field.data
+    starts = np.cumsum([0] + sizes)
+    parts = []
+    for node, (start, k) in enumerate(zip(starts[:-1], sizes)):
+        part = np.asarray(mesh.extract_field_data(full, node_id=node, with_ghost_cells=ghost))
+        want = full[..., start:start + k + 2] if ghost else full[..., start:start + k]
+        if part.shape != want.shape or not np.array_equal(part, want):
+            raise Violation(
+                f"hand-made mesh of chunk sizes {sizes} on {type(base).__name__}: node {node} (sub-grid of {k} cells from "
+                f"cell {start}) received data of shape {part.shape}, its cells have shape {want.shape}"
+                + ("" if part.shape != want.shape else " with other values"), key=f"handmade:{case['cls']}:extract")
+        sub = mesh.extract_subfield(field, node_id=node, with_ghost_cells=ghost)
+        if sub.grid.shape != (k,) or not np.array_equal(sub.data, field.data[..., start:start + k]):
+            raise Violation(f"hand-made mesh {sizes}: extract_subfield of node {node} does not hold the cells of its "
+                            f"sub-grid", key=f"handmade:{case['cls']}:subfield")
+        parts.append(part)
+    back = np.asarray(mesh.combine_field_data(parts, with_ghost_cells=ghost))
+    if back.shape != full.shape or not np.array_equal(back[..., 1:-1] if ghost else back, field.data):
+        raise Violation(f"hand-made mesh {sizes}: split then combine is not the identity", key=f"handmade:{case['cls']}:combine")
+    equal = len(set(sizes)) == 1
+    return {"nt": not equal, "labels": [f"grid:{case['cls']}", f"chunks:{len(sizes)}", f"rank:{rank}",
+                                        "ghost" if ghost else "valid", "equal-chunks" if equal else "uneven-chunks"],
+            "key": [case["cls"], sizes, case["lo"], case["dx"], rank, ghost]}
+
+
 SUBCHECKS = [
+    SubCheck("handmade_mesh", strategy=handmade_cases, check=check_handmade, mode="pure",
+             budget={"quick": 600, "thorough": 8000}, shards={"quick": 1, "thorough": 2},
+             rule="GridMesh(basegrid, subgrids) with hand-chosen chunk sizes; non-trivial = chunk sizes not all equal"),
     SubCheck("tiling", strategy=mesh_cases, check=check_tiling, mode="pure",
              budget={"quick": 3000, "thorough": 40000}, shards={"quick": 3, "thorough": 8}, rule=RULE_NT),
     SubCheck("tiling_long_axis", strategy=long_axis_cases, check=check_tiling, mode="pure",
